@@ -1,46 +1,134 @@
 ------------------------------ MODULE C12_Loader ------------------------------
 (* I-specification for C12: the theory loader of logic/basic.py, one label per critical    *)
-(* section, with the process-wide state it manipulates:                                    *)
-(*   thy       the global current theory (theory.thy): set of <<theory, "full"|"partial">>  *)
-(*   cached    theories whose cache entry carries a current timestamp                       *)
-(*   content   [theory -> "none" | "partial" | "full"]  what cache['content'] holds          *)
+(* section, with the process-wide state it manipulates and the library files it reads:      *)
+(*   files     fexists (set of existing files), fimports, fitems (sequence of item ids),     *)
+(*             fver (modification time: a counter that grows with every new version)         *)
+(*   meta      theory_cache[user]: per name  known? / imports as remembered / timestamp /     *)
+(*             content = <<file, item id, parsed without error?>> (an item parses without     *)
+(*             error iff the theory it is parsed in holds everything its file's imports give) *)
+(*   thy       the global current theory (theory.thy): set of <<file, item id>>               *)
 (*   imported  python modules in sys.modules                                                 *)
 (* Python modules may load theories when first imported (ModuleBody), and load_theory_cache  *)
 (* imports some modules lazily (LazyImport): both are generated from the repository.        *)
-(* Variants (constants):                                                                     *)
-(*   RestoreThy    : the lazy import is wrapped so that theory.thy is restored afterwards    *)
-(*   TimestampLast : cache['timestamp'] / cache['content'] are stored only when complete      *)
-(* Operations of a history: load(t), load with an injected failure while t's own items are   *)
-(* parsed (fault), import of a module.  TLC explores all histories of <= MaxOps operations.  *)
-(* Invariant Good: every load without injected fault returns normally with thy = Expected.   *)
+(* Mechanism variants: var, chosen in Init from Variants, is a set of deviations from the     *)
+(* mechanism that has the property (var = {}):                                               *)
+(*   "norestore"  theory.thy is not restored after the lazy import                            *)
+(*   "tsfirst"    cache timestamp / content are stored before the content is complete         *)
+(*   "stalemeta"  the imports of a known file are not re-read when the file has changed       *)
+(*   "keepentry"  the cache entry of a file that does not exist is kept (without content)     *)
+(*   "limitpos"   a limit is remembered by the position it had when it was first used         *)
+(*   "staledeps"  the import walk trusts the remembered imports of every known file, also of  *)
+(*                files that have changed since (only the file being loaded is re-read)       *)
+(* Operations of a history: load(t, limit), load with an injected failure while t's own      *)
+(* items are parsed (fault), import of a module, and operations on the files between loads:  *)
+(* create / remove a file, another import list, insert / delete an item at a position.       *)
+(* TLC explores all histories of <= MaxOps operations.  Invariant Good: for the mechanisms   *)
+(* in GoodVariants every load ends as the FILES say: an error iff a file of the import closure is   *)
+(* missing, the closure has a cycle or the limit names no item; otherwise thy = Expected.    *)
 EXTENDS Naturals, Sequences, FiniteSets, TLC
 
 CONSTANTS Theories, Imports, Modules, LazyImport, ModuleBody,
-          OpTheories, OpModules, MaxOps, RestoreThy, TimestampLast, AllowFault
+          OpTheories, OpModules, MaxOps, AllowFault, Variants, GoodVariants,
+          Present0,        \* files that exist initially
+          Items0,          \* [Theories -> Seq(Nat)] item ids of a file when it is (re)created
+          FileOps,         \* set of <<kind, file, position, imports>>, kind in create/remove/reimport/ins/del
+          LimitsOf,        \* [Theories -> SUBSET Nat] limits used in loads of a theory (0 = no limit)
+          MaxDepth         \* recursion bound of the import walk (python's recursion limit)
 
-RECURSIVE DepOrder(_, _)
-\* get_import_order: dfs over a list of names, appending each name after its imports
-DepOrder(names, acc) ==
+RangeS(s) == { s[i] : i \in 1..Len(s) }
+InSeq(s, x) == \E i \in 1..Len(s) : s[i] = x
+Min(S) == CHOOSE x \in S : \A y \in S : x <= y
+
+RECURSIVE DepOrderF(_, _, _)
+\* get_import_order over a table of import lists: dfs over a list of names, appending each name after its imports
+DepOrderF(imp, names, acc) ==
   IF names = <<>> THEN acc
   ELSE LET n == Head(names)
-           acc1 == IF \E i \in 1..Len(acc) : acc[i] = n THEN acc
-                   ELSE Append(DepOrder(Imports[n], acc), n)
-       IN DepOrder(Tail(names), acc1)
-RangeS(s) == { s[i] : i \in 1..Len(s) }
-Expected(th) == { <<t, "full">> : t \in RangeS(DepOrder(Imports[th], <<>>)) \cup {th} }
-HasTheory(S, t) == \E k \in {"full", "partial"} : <<t, k>> \in S
+           acc1 == IF InSeq(acc, n) THEN acc ELSE Append(DepOrderF(imp, imp[n], acc), n)
+       IN DepOrderF(imp, Tail(names), acc1)
+
+\* ------------------------------------------------------------------ what the FILES say (reference)
+FImp(fe, fi, n) == IF n \in fe THEN RangeS(fi[n]) ELSE {}
+RECURSIVE FReach(_, _, _)
+FReach(fe, fi, S) == LET S2 == S \cup UNION { FImp(fe, fi, n) : n \in S } IN IF S2 = S THEN S ELSE FReach(fe, fi, S2)
+FBelow(fe, fi, n) == FReach(fe, fi, FImp(fe, fi, n))
+FClosure(fe, fi, n) == FBelow(fe, fi, n) \cup {n}
+RECURSIVE FPeel(_, _, _)
+FPeel(fe, fi, C) == LET R == { x \in C : FImp(fe, fi, x) \cap C = {} } IN IF R = {} THEN C ELSE FPeel(fe, fi, C \ R)
+SaneLib(fe, fi) == (\A x \in fe : RangeS(fi[x]) \subseteq fe) /\ FPeel(fe, fi, fe) = {}
+ExpectOK(fe, fi, fit, t, lim) == /\ FClosure(fe, fi, t) \subseteq fe
+                                 /\ FPeel(fe, fi, FClosure(fe, fi, t)) = {}
+                                 /\ (lim = 0 \/ lim \in RangeS(fit[t]))
+Toks(fit, d) == { <<d, id>> : id \in RangeS(fit[d]) }
+PosIn(s, x) == IF InSeq(s, x) THEN Min({ k \in 1..Len(s) : s[k] = x }) ELSE 0
+ExpectedToks(fe, fi, fit, t, lim) ==
+  UNION { Toks(fit, d) : d \in FBelow(fe, fi, t) }
+  \cup { <<t, fit[t][k]>> : k \in 1..(IF lim = 0 THEN Len(fit[t]) ELSE PosIn(fit[t], lim) - 1) }
+\* an item of file f parses without error iff the theory it is parsed in has all items of the (existing) files below f
+CtxGood(fe, fi, fit, f, ctx) == UNION { Toks(fit, d) : d \in FBelow(fe, fi, f) \cap fe } \subseteq ctx
+
+\* ------------------------------------------------------------------ what the PROCESS remembers
+AbsentRec == [known |-> FALSE, imports |-> <<>>, hasTs |-> FALSE, ts |-> 0, content |-> <<>>]
+EmptyRec == [AbsentRec EXCEPT !.known = TRUE]
+MImp(mt, n) == RangeS(mt[n].imports)
+RECURSIVE MReach(_, _)
+MReach(mt, S) == LET S2 == S \cup UNION { MImp(mt, n) : n \in S } IN IF S2 = S THEN S ELSE MReach(mt, S2)
+MClosure(mt, n) == MReach(mt, {n})
+RECURSIVE MPeel(_, _)
+MPeel(mt, C) == LET R == { x \in C : MImp(mt, x) \cap C = {} } IN IF R = {} THEN C ELSE MPeel(mt, C \ R)
+Current(mt, fe, fv, n) == n \in fe /\ mt[n].known /\ mt[n].hasTs /\ mt[n].ts = fv[n]
+\* everything the walk from n can reach is cached and current: the walk has no side effect and is the pure order
+Settled(mt, fe, fv, n) == LET C == MClosure(mt, n) IN (\A x \in C : Current(mt, fe, fv, x)) /\ MPeel(mt, C) = {}
+GoodToks(c, n) == { <<c[k][1], c[k][2]>> : k \in { k2 \in 1..n : c[k2][3] } }
+AllToks(c) == { <<c[k][1], c[k][2]>> : k \in 1..Len(c) }
+Parsed(fit, f, n, ok) == [k \in 1..n |-> <<f, fit[f][k], ok>>]
+PosOfLimit(c, lim) == LET K == { k \in 1..Len(c) : c[k][2] = lim } IN IF K = {} THEN 0 ELSE Min(K)
+InsertAt(s, p, x) == SubSeq(s, 1, p) \o <<x>> \o SubSeq(s, p + 1, Len(s))
+RemoveAt(s, p) == SubSeq(s, 1, p) \o SubSeq(s, p + 2, Len(s))
 
 (* --algorithm Loader
 variables
+  var \in Variants;
+  fexists = Present0;
+  fimports = Imports;
+  fitems = Items0;
+  fver = [t \in Theories |-> 1];
+  meta = [t \in Theories |-> AbsentRec];
+  metaLoaded = FALSE;
+  limMemo = [t \in Theories |-> {}];
+  order = <<>>;
   thy = {};
-  cached = {};
-  content = [t \in Theories |-> "none"];
   imported = {};
   exc = "none";
   faultAt = "none";
   ops = 0;
   good = TRUE;
   hist = <<>>;
+
+define
+  RestoreThy == "norestore" \notin var
+  TimestampLast == "tsfirst" \notin var
+  RefreshMeta == "stalemeta" \notin var
+  DropMissing == "keepentry" \notin var
+  LimitById == "limitpos" \notin var
+  RefreshDeps == "staledeps" \notin var
+  IsCurrent(n) == metaLoaded /\ Current(meta, fexists, fver, n)
+  IsSettled(n) == metaLoaded /\ Settled(meta, fexists, fver, n)
+  MetaImports == [t \in Theories |-> meta[t].imports]
+  FileOpEnabled(o) ==
+    CASE o[1] = "create" -> o[2] \notin fexists
+      [] o[1] = "remove" -> o[2] \in fexists
+      [] o[1] = "reimport" -> o[2] \in fexists /\ fimports[o[2]] # o[4]
+      [] o[1] = "ins" -> o[2] \in fexists /\ o[3] <= Len(fitems[o[2]])
+      [] o[1] = "del" -> o[2] \in fexists /\ o[3] < Len(fitems[o[2]])
+      [] OTHER -> FALSE
+end define;
+
+\* add the error-free items of the cached theory d to the current theory (a name that is already there is an error)
+macro Extend(d) begin
+  if GoodToks(meta[d].content, Len(meta[d].content)) \cap thy # {} then exc := "exists";
+  else thy := thy \cup GoodToks(meta[d].content, Len(meta[d].content)); end if;
+end macro;
 
 procedure ImportModule(m)
 variables pcidx = 1;
@@ -51,7 +139,7 @@ im2: while pcidx <= Len(ModuleBody[m]) /\ exc = "none" do
        if ModuleBody[m][pcidx][1] = "import" then
          call ImportModule(ModuleBody[m][pcidx][2]);
        else
-         call LoadTheory(ModuleBody[m][pcidx][2]);
+         call LoadTheory(ModuleBody[m][pcidx][2], 0);
        end if;
 im3:   pcidx := pcidx + 1;
      end while;
@@ -59,104 +147,252 @@ im4: if exc # "none" then imported := imported \ {m}; end if;
      return;
 end procedure;
 
-procedure LoadCache(f)
-variables deps = <<>>; i = 1; saved = {}; keep = {};
+\* dfs of get_import_order; the list being built is the global `order`
+procedure Dfs(dn)
+variables dk = 1; dimps = <<>>;
 begin
-lc0: if f \in cached then return; end if;
-lc1: keep := thy;
-     if LazyImport[f] # "none" then call ImportModule(LazyImport[f]); end if;
-lc2: if RestoreThy then thy := keep; end if;
-     if exc # "none" then return; end if;
-lc2b: if RestoreThy /\ f \in cached then return; end if;      \* cache was filled while importing
-lc3: deps := DepOrder(Imports[f], <<>>);
-     saved := thy;
-     thy := {};
+d0: if InSeq(order, dn) then return;
+    elsif IsSettled(dn) then order := DepOrderF(MetaImports, <<dn>>, order); return;
+    elsif Len(stack[self]) > MaxDepth then exc := "recursion"; return;
+    end if;
+d1: if ~meta[dn].known \/ (RefreshDeps /\ ~IsCurrent(dn)) then
+      \* an unknown name (file created later) is read first; the fixed mechanism re-reads every file that is not current
+      call LoadCache(dn);
+    end if;
+d2: if exc # "none" then return; end if;
+d2a: dimps := meta[dn].imports;
+d3: while dk <= Len(dimps) /\ exc = "none" do
+      call Dfs(dimps[dk]);
+d4:   dk := dk + 1;
+    end while;
+d5: if exc = "none" then order := Append(order, dn); end if;
+    return;
+end procedure;
+
+procedure GetOrder(names)
+variables q = 1;
+begin
+go1: while q <= Len(names) /\ exc = "none" do
+       call Dfs(names[q]);
+go2:   q := q + 1;
+     end while;
+go3: return;
+end procedure;
+
+procedure LoadCache(f)
+variables deps = <<>>; i = 1; saved = {}; keep = {}; sorder = <<>>;
+begin
+lc0: if IsCurrent(f) then return; end if;
+lcm: if ~metaLoaded then
+       \* load_metadata: the imports of every file there is; then the cycle check (a dangling import is a KeyError)
+       meta := [t \in Theories |-> IF t \in fexists THEN [EmptyRec EXCEPT !.imports = fimports[t]] ELSE AbsentRec];
+       metaLoaded := TRUE;
+       if ~SaneLib(fexists, fimports) then exc := "metadata"; end if;
+     end if;
+lce: if exc # "none" then return;
+     elsif f \notin fexists then
+       \* the file was never there or has been removed
+       if DropMissing then meta[f] := AbsentRec;
+       else meta[f] := [(IF meta[f].known THEN meta[f] ELSE EmptyRec) EXCEPT !.hasTs = FALSE, !.content = <<>>]; end if;
+       exc := "notfound";
+       return;
+     elsif IsCurrent(f) then return;
+     else
+       \* the file is new or has changed: its imports may have changed as well
+       meta[f] := [(IF meta[f].known THEN meta[f] ELSE EmptyRec) EXCEPT !.imports = IF RefreshMeta \/ ~meta[f].known THEN fimports[f] ELSE @];
+     end if;
+lc1: if LazyImport[f] # "none" then
+       keep := thy;
+       call ImportModule(LazyImport[f]);
+lc2:   if RestoreThy then thy := keep; end if;
+       if exc # "none" \/ (RestoreThy /\ IsCurrent(f)) then return; end if;      \* cache was filled while importing
+     end if;
+lc3: sorder := order;
+     if \A x \in RangeS(meta[f].imports) : IsSettled(x) then
+       order := DepOrderF(MetaImports, meta[f].imports, <<>>);
+     else
+       order := <<>>;
+       call GetOrder(meta[f].imports);
+     end if;
+lc3a: if exc # "none" then order := sorder; return;
+      else deps := order; order := sorder; saved := thy; thy := {}; end if;
 lc4: while i <= Len(deps) /\ exc = "none" do
-       call LoadCache(deps[i]);
-lc5:   if exc = "none" then
-         if HasTheory(thy, deps[i]) then exc := "exists";
-         else thy := thy \cup {<<deps[i], content[deps[i]]>>}; end if;
+       if \A k \in i..Len(deps) : IsCurrent(deps[k]) then
+         \* all remaining imports are cached: no side effect but the extension of the theory being built
+         if \E k \in i..Len(deps) : GoodToks(meta[deps[k]].content, Len(meta[deps[k]].content)) \cap thy # {} then exc := "exists";
+         else thy := thy \cup UNION { GoodToks(meta[deps[k]].content, Len(meta[deps[k]].content)) : k \in i..Len(deps) }; end if;
+         i := Len(deps) + 1;
+       else
+         call LoadCache(deps[i]);
+lc5:     if exc = "none" then Extend(deps[i]); end if;
+         i := i + 1;
        end if;
-       i := i + 1;
      end while;
 lc6: if exc = "none" then
        if f = faultAt then
          \* an exception while the items of f are being parsed
-         if ~TimestampLast then cached := cached \cup {f}; content[f] := "partial"; end if;
+         if ~TimestampLast then
+           meta[f] := [meta[f] EXCEPT !.hasTs = TRUE, !.ts = fver[f],
+                                      !.content = Parsed(fitems, f, Len(fitems[f]) \div 2, CtxGood(fexists, fimports, fitems, f, thy))];
+         end if;
          exc := "fault";
-       elsif HasTheory(thy, f) then
-         if ~TimestampLast then cached := cached \cup {f}; content[f] := "partial"; end if;
+       elsif Toks(fitems, f) \cap thy # {} then
+         if ~TimestampLast then
+           meta[f] := [meta[f] EXCEPT !.hasTs = TRUE, !.ts = fver[f],
+                                      !.content = Parsed(fitems, f, Len(fitems[f]) \div 2, CtxGood(fexists, fimports, fitems, f, thy))];
+         end if;
          exc := "exists";
        else
-         cached := cached \cup {f}; content[f] := "full";
-         thy := thy \cup {<<f, "full">>};
+         meta[f] := [meta[f] EXCEPT !.hasTs = TRUE, !.ts = fver[f],
+                                    !.content = Parsed(fitems, f, Len(fitems[f]), CtxGood(fexists, fimports, fitems, f, thy))];
        end if;
      end if;
-lc7: thy := saved;
+     thy := saved;
      return;
 end procedure;
 
-procedure LoadTheory(g)
-variables deps2 = <<>>; j = 1;
+procedure LoadTheory(g, glim)
+variables deps2 = <<>>; j = 1; sorder2 = <<>>;
 begin
-lt0: call LoadCache(g);
+lt0: if ~IsCurrent(g) then call LoadCache(g); end if;
 lt1: if exc # "none" then return; end if;
-lt2: deps2 := DepOrder(Imports[g], <<>>);
-     thy := {};
+lt1a: sorder2 := order;
+     if \A x \in RangeS(meta[g].imports) : IsSettled(x) then
+       order := DepOrderF(MetaImports, meta[g].imports, <<>>);
+     else
+       order := <<>>;
+       call GetOrder(meta[g].imports);
+     end if;
+lt2: if exc # "none" then order := sorder2; return;
+     else deps2 := order; order := sorder2; thy := {}; end if;
 lt3: while j <= Len(deps2) /\ exc = "none" do
-       call LoadCache(deps2[j]);
-lt4:   if exc = "none" then
-         if HasTheory(thy, deps2[j]) then exc := "exists"; else thy := thy \cup {<<deps2[j], content[deps2[j]]>>}; end if;
+       if \A k \in j..Len(deps2) : IsCurrent(deps2[k]) then
+         if \E k \in j..Len(deps2) : GoodToks(meta[deps2[k]].content, Len(meta[deps2[k]].content)) \cap thy # {} then exc := "exists";
+         else thy := thy \cup UNION { GoodToks(meta[deps2[k]].content, Len(meta[deps2[k]].content)) : k \in j..Len(deps2) }; end if;
+         j := Len(deps2) + 1;
+       else
+         call LoadCache(deps2[j]);
+lt4:     if exc = "none" then Extend(deps2[j]); end if;
+         j := j + 1;
        end if;
-       j := j + 1;
      end while;
 lt5: if exc = "none" then
-       if HasTheory(thy, g) then exc := "exists"; else thy := thy \cup {<<g, content[g]>>}; end if;
+       \* the portion of the own content up to (and not including) the limit
+       with c = meta[g].content,
+            memo = { x \in limMemo[g] : x[1] = glim },
+            p = IF glim = 0 THEN Len(c) + 1
+                ELSE IF ~LimitById /\ memo # {} THEN (CHOOSE x \in memo : TRUE)[2]
+                ELSE PosOfLimit(c, glim) do
+         if p = 0 then
+           exc := "nolimit";
+         else
+           if ~LimitById /\ glim # 0 then limMemo[g] := limMemo[g] \cup {<<glim, p>>}; end if;
+           if GoodToks(c, IF p - 1 <= Len(c) THEN p - 1 ELSE Len(c)) \cap thy # {} then exc := "exists";
+           else thy := thy \cup GoodToks(c, IF p - 1 <= Len(c) THEN p - 1 ELSE Len(c)); end if;
+         end if;
+       end with;
      end if;
-lt6: return;
+     return;
 end procedure;
 
 process main = "main"
-variables target = "none"; kind = "none";
+variables target = "none"; kind = "none"; lim = 0; arg = <<>>;
 begin
 m0: while ops < MaxOps do
       either
-        with t \in OpTheories do target := t; end with;
-        kind := "load"; exc := "none"; faultAt := "none";
-        call LoadTheory(target);
+        with t \in OpTheories, lm \in LimitsOf[t] do target := t; lim := lm; end with;
+        kind := "load"; exc := "none"; faultAt := "none"; arg := <<>>;
+        call LoadTheory(target, lim);
       or
         await AllowFault;
         with t \in OpTheories do target := t; end with;
-        kind := "fault"; exc := "none"; faultAt := target;
-        call LoadTheory(target);
+        kind := "fault"; exc := "none"; faultAt := target; lim := 0; arg := <<>>;
+        call LoadTheory(target, 0);
       or
         with mm \in OpModules do target := mm; end with;
-        kind := "import"; exc := "none"; faultAt := "none";
+        kind := "import"; exc := "none"; faultAt := "none"; lim := 0; arg := <<>>;
         call ImportModule(target);
+      or
+        \* the library changes between two operations of the process
+        with o \in { x \in FileOps : FileOpEnabled(x) } do
+          kind := o[1]; target := o[2]; lim := o[3]; arg := o[4]; exc := "none"; faultAt := "none";
+          if o[1] = "create" then
+            fexists := fexists \cup {o[2]};
+            fimports[o[2]] := o[4];
+            fitems[o[2]] := Items0[o[2]];
+            fver[o[2]] := fver[o[2]] + 1;
+          elsif o[1] = "remove" then
+            fexists := fexists \ {o[2]};
+          elsif o[1] = "reimport" then
+            fimports[o[2]] := o[4];
+            fver[o[2]] := fver[o[2]] + 1;
+          elsif o[1] = "ins" then
+            fitems[o[2]] := InsertAt(fitems[o[2]], o[3], 100 + ops);
+            fver[o[2]] := fver[o[2]] + 1;
+          else
+            fitems[o[2]] := RemoveAt(fitems[o[2]], o[3]);
+            fver[o[2]] := fver[o[2]] + 1;
+          end if;
+        end with;
       end either;
-m1:   print <<"H", hist, kind, target, exc, (exc = "none" /\ kind = "load") => thy = Expected(target)>>;
-      good := good /\ (kind = "load" => (exc = "none" /\ thy = Expected(target)));
-      hist := Append(hist, <<kind, target>>);
+m1:   with okf = IF kind # "load" THEN TRUE
+                 ELSE IF ExpectOK(fexists, fimports, fitems, target, lim)
+                      THEN (IF SaneLib(fexists, fimports) THEN exc = "none" ELSE TRUE)
+                           /\ (exc = "none" => thy = ExpectedToks(fexists, fimports, fitems, target, lim))
+                      ELSE exc # "none" do
+        print <<"H", var, hist, <<kind, target, lim, arg>>, exc, okf>>;
+        good := good /\ okf;
+      end with;
+      hist := Append(hist, <<kind, target, lim, arg>>);
       faultAt := "none";
-m2:   ops := ops + 1;
+      ops := ops + 1;
     end while;
 end process;
 end algorithm; *)
 \* BEGIN TRANSLATION
 CONSTANT defaultInitValue
-VARIABLES pc, thy, cached, content, imported, exc, faultAt, ops, good, hist, 
-          stack, m, pcidx, f, deps, i, saved, keep, g, deps2, j, target, kind
+VARIABLES pc, var, fexists, fimports, fitems, fver, meta, metaLoaded, limMemo, 
+          order, thy, imported, exc, faultAt, ops, good, hist, stack
 
-vars == << pc, thy, cached, content, imported, exc, faultAt, ops, good, hist, 
-           stack, m, pcidx, f, deps, i, saved, keep, g, deps2, j, target, 
-           kind >>
+(* define statement *)
+RestoreThy == "norestore" \notin var
+TimestampLast == "tsfirst" \notin var
+RefreshMeta == "stalemeta" \notin var
+DropMissing == "keepentry" \notin var
+LimitById == "limitpos" \notin var
+RefreshDeps == "staledeps" \notin var
+IsCurrent(n) == metaLoaded /\ Current(meta, fexists, fver, n)
+IsSettled(n) == metaLoaded /\ Settled(meta, fexists, fver, n)
+MetaImports == [t \in Theories |-> meta[t].imports]
+FileOpEnabled(o) ==
+  CASE o[1] = "create" -> o[2] \notin fexists
+    [] o[1] = "remove" -> o[2] \in fexists
+    [] o[1] = "reimport" -> o[2] \in fexists /\ fimports[o[2]] # o[4]
+    [] o[1] = "ins" -> o[2] \in fexists /\ o[3] <= Len(fitems[o[2]])
+    [] o[1] = "del" -> o[2] \in fexists /\ o[3] < Len(fitems[o[2]])
+    [] OTHER -> FALSE
+
+VARIABLES m, pcidx, dn, dk, dimps, names, q, f, deps, i, saved, keep, sorder, 
+          g, glim, deps2, j, sorder2, target, kind, lim, arg
+
+vars == << pc, var, fexists, fimports, fitems, fver, meta, metaLoaded, 
+           limMemo, order, thy, imported, exc, faultAt, ops, good, hist, 
+           stack, m, pcidx, dn, dk, dimps, names, q, f, deps, i, saved, keep, 
+           sorder, g, glim, deps2, j, sorder2, target, kind, lim, arg >>
 
 ProcSet == {"main"}
 
 Init == (* Global variables *)
+        /\ var \in Variants
+        /\ fexists = Present0
+        /\ fimports = Imports
+        /\ fitems = Items0
+        /\ fver = [t \in Theories |-> 1]
+        /\ meta = [t \in Theories |-> AbsentRec]
+        /\ metaLoaded = FALSE
+        /\ limMemo = [t \in Theories |-> {}]
+        /\ order = <<>>
         /\ thy = {}
-        /\ cached = {}
-        /\ content = [t \in Theories |-> "none"]
         /\ imported = {}
         /\ exc = "none"
         /\ faultAt = "none"
@@ -166,19 +402,31 @@ Init == (* Global variables *)
         (* Procedure ImportModule *)
         /\ m = [ self \in ProcSet |-> defaultInitValue]
         /\ pcidx = [ self \in ProcSet |-> 1]
+        (* Procedure Dfs *)
+        /\ dn = [ self \in ProcSet |-> defaultInitValue]
+        /\ dk = [ self \in ProcSet |-> 1]
+        /\ dimps = [ self \in ProcSet |-> <<>>]
+        (* Procedure GetOrder *)
+        /\ names = [ self \in ProcSet |-> defaultInitValue]
+        /\ q = [ self \in ProcSet |-> 1]
         (* Procedure LoadCache *)
         /\ f = [ self \in ProcSet |-> defaultInitValue]
         /\ deps = [ self \in ProcSet |-> <<>>]
         /\ i = [ self \in ProcSet |-> 1]
         /\ saved = [ self \in ProcSet |-> {}]
         /\ keep = [ self \in ProcSet |-> {}]
+        /\ sorder = [ self \in ProcSet |-> <<>>]
         (* Procedure LoadTheory *)
         /\ g = [ self \in ProcSet |-> defaultInitValue]
+        /\ glim = [ self \in ProcSet |-> defaultInitValue]
         /\ deps2 = [ self \in ProcSet |-> <<>>]
         /\ j = [ self \in ProcSet |-> 1]
+        /\ sorder2 = [ self \in ProcSet |-> <<>>]
         (* Process main *)
         /\ target = "none"
         /\ kind = "none"
+        /\ lim = 0
+        /\ arg = <<>>
         /\ stack = [self \in ProcSet |-> << >>]
         /\ pc = [self \in ProcSet |-> "m0"]
 
@@ -190,16 +438,20 @@ im0(self) == /\ pc[self] = "im0"
                         /\ stack' = [stack EXCEPT ![self] = Tail(stack[self])]
                    ELSE /\ pc' = [pc EXCEPT ![self] = "im1"]
                         /\ UNCHANGED << stack, m, pcidx >>
-             /\ UNCHANGED << thy, cached, content, imported, exc, faultAt, ops, 
-                             good, hist, f, deps, i, saved, keep, g, deps2, j, 
-                             target, kind >>
+             /\ UNCHANGED << var, fexists, fimports, fitems, fver, meta, 
+                             metaLoaded, limMemo, order, thy, imported, exc, 
+                             faultAt, ops, good, hist, dn, dk, dimps, names, q, 
+                             f, deps, i, saved, keep, sorder, g, glim, deps2, 
+                             j, sorder2, target, kind, lim, arg >>
 
 im1(self) == /\ pc[self] = "im1"
              /\ imported' = (imported \cup {m[self]})
              /\ pc' = [pc EXCEPT ![self] = "im2"]
-             /\ UNCHANGED << thy, cached, content, exc, faultAt, ops, good, 
-                             hist, stack, m, pcidx, f, deps, i, saved, keep, g, 
-                             deps2, j, target, kind >>
+             /\ UNCHANGED << var, fexists, fimports, fitems, fver, meta, 
+                             metaLoaded, limMemo, order, thy, exc, faultAt, 
+                             ops, good, hist, stack, m, pcidx, dn, dk, dimps, 
+                             names, q, f, deps, i, saved, keep, sorder, g, 
+                             glim, deps2, j, sorder2, target, kind, lim, arg >>
 
 im2(self) == /\ pc[self] = "im2"
              /\ IF pcidx[self] <= Len(ModuleBody[m[self]]) /\ exc = "none"
@@ -212,29 +464,39 @@ im2(self) == /\ pc[self] = "im2"
                                                                            \o stack[self]]
                                    /\ pcidx' = [pcidx EXCEPT ![self] = 1]
                                    /\ pc' = [pc EXCEPT ![self] = "im0"]
-                                   /\ UNCHANGED << g, deps2, j >>
+                                   /\ UNCHANGED << g, glim, deps2, j, sorder2 >>
                               ELSE /\ /\ g' = [g EXCEPT ![self] = ModuleBody[m[self]][pcidx[self]][2]]
+                                      /\ glim' = [glim EXCEPT ![self] = 0]
                                       /\ stack' = [stack EXCEPT ![self] = << [ procedure |->  "LoadTheory",
                                                                                pc        |->  "im3",
                                                                                deps2     |->  deps2[self],
                                                                                j         |->  j[self],
-                                                                               g         |->  g[self] ] >>
+                                                                               sorder2   |->  sorder2[self],
+                                                                               g         |->  g[self],
+                                                                               glim      |->  glim[self] ] >>
                                                                            \o stack[self]]
                                    /\ deps2' = [deps2 EXCEPT ![self] = <<>>]
                                    /\ j' = [j EXCEPT ![self] = 1]
+                                   /\ sorder2' = [sorder2 EXCEPT ![self] = <<>>]
                                    /\ pc' = [pc EXCEPT ![self] = "lt0"]
                                    /\ UNCHANGED << m, pcidx >>
                    ELSE /\ pc' = [pc EXCEPT ![self] = "im4"]
-                        /\ UNCHANGED << stack, m, pcidx, g, deps2, j >>
-             /\ UNCHANGED << thy, cached, content, imported, exc, faultAt, ops, 
-                             good, hist, f, deps, i, saved, keep, target, kind >>
+                        /\ UNCHANGED << stack, m, pcidx, g, glim, deps2, j, 
+                                        sorder2 >>
+             /\ UNCHANGED << var, fexists, fimports, fitems, fver, meta, 
+                             metaLoaded, limMemo, order, thy, imported, exc, 
+                             faultAt, ops, good, hist, dn, dk, dimps, names, q, 
+                             f, deps, i, saved, keep, sorder, target, kind, 
+                             lim, arg >>
 
 im3(self) == /\ pc[self] = "im3"
              /\ pcidx' = [pcidx EXCEPT ![self] = pcidx[self] + 1]
              /\ pc' = [pc EXCEPT ![self] = "im2"]
-             /\ UNCHANGED << thy, cached, content, imported, exc, faultAt, ops, 
-                             good, hist, stack, m, f, deps, i, saved, keep, g, 
-                             deps2, j, target, kind >>
+             /\ UNCHANGED << var, fexists, fimports, fitems, fver, meta, 
+                             metaLoaded, limMemo, order, thy, imported, exc, 
+                             faultAt, ops, good, hist, stack, m, dn, dk, dimps, 
+                             names, q, f, deps, i, saved, keep, sorder, g, 
+                             glim, deps2, j, sorder2, target, kind, lim, arg >>
 
 im4(self) == /\ pc[self] = "im4"
              /\ IF exc # "none"
@@ -245,31 +507,272 @@ im4(self) == /\ pc[self] = "im4"
              /\ pcidx' = [pcidx EXCEPT ![self] = Head(stack[self]).pcidx]
              /\ m' = [m EXCEPT ![self] = Head(stack[self]).m]
              /\ stack' = [stack EXCEPT ![self] = Tail(stack[self])]
-             /\ UNCHANGED << thy, cached, content, exc, faultAt, ops, good, 
-                             hist, f, deps, i, saved, keep, g, deps2, j, 
-                             target, kind >>
+             /\ UNCHANGED << var, fexists, fimports, fitems, fver, meta, 
+                             metaLoaded, limMemo, order, thy, exc, faultAt, 
+                             ops, good, hist, dn, dk, dimps, names, q, f, deps, 
+                             i, saved, keep, sorder, g, glim, deps2, j, 
+                             sorder2, target, kind, lim, arg >>
 
 ImportModule(self) == im0(self) \/ im1(self) \/ im2(self) \/ im3(self)
                          \/ im4(self)
 
+d0(self) == /\ pc[self] = "d0"
+            /\ IF InSeq(order, dn[self])
+                  THEN /\ pc' = [pc EXCEPT ![self] = Head(stack[self]).pc]
+                       /\ dk' = [dk EXCEPT ![self] = Head(stack[self]).dk]
+                       /\ dimps' = [dimps EXCEPT ![self] = Head(stack[self]).dimps]
+                       /\ dn' = [dn EXCEPT ![self] = Head(stack[self]).dn]
+                       /\ stack' = [stack EXCEPT ![self] = Tail(stack[self])]
+                       /\ UNCHANGED << order, exc >>
+                  ELSE /\ IF IsSettled(dn[self])
+                             THEN /\ order' = DepOrderF(MetaImports, <<dn[self]>>, order)
+                                  /\ pc' = [pc EXCEPT ![self] = Head(stack[self]).pc]
+                                  /\ dk' = [dk EXCEPT ![self] = Head(stack[self]).dk]
+                                  /\ dimps' = [dimps EXCEPT ![self] = Head(stack[self]).dimps]
+                                  /\ dn' = [dn EXCEPT ![self] = Head(stack[self]).dn]
+                                  /\ stack' = [stack EXCEPT ![self] = Tail(stack[self])]
+                                  /\ exc' = exc
+                             ELSE /\ IF Len(stack[self]) > MaxDepth
+                                        THEN /\ exc' = "recursion"
+                                             /\ pc' = [pc EXCEPT ![self] = Head(stack[self]).pc]
+                                             /\ dk' = [dk EXCEPT ![self] = Head(stack[self]).dk]
+                                             /\ dimps' = [dimps EXCEPT ![self] = Head(stack[self]).dimps]
+                                             /\ dn' = [dn EXCEPT ![self] = Head(stack[self]).dn]
+                                             /\ stack' = [stack EXCEPT ![self] = Tail(stack[self])]
+                                        ELSE /\ pc' = [pc EXCEPT ![self] = "d1"]
+                                             /\ UNCHANGED << exc, stack, dn, 
+                                                             dk, dimps >>
+                                  /\ order' = order
+            /\ UNCHANGED << var, fexists, fimports, fitems, fver, meta, 
+                            metaLoaded, limMemo, thy, imported, faultAt, ops, 
+                            good, hist, m, pcidx, names, q, f, deps, i, saved, 
+                            keep, sorder, g, glim, deps2, j, sorder2, target, 
+                            kind, lim, arg >>
+
+d1(self) == /\ pc[self] = "d1"
+            /\ IF ~meta[dn[self]].known \/ (RefreshDeps /\ ~IsCurrent(dn[self]))
+                  THEN /\ /\ f' = [f EXCEPT ![self] = dn[self]]
+                          /\ stack' = [stack EXCEPT ![self] = << [ procedure |->  "LoadCache",
+                                                                   pc        |->  "d2",
+                                                                   deps      |->  deps[self],
+                                                                   i         |->  i[self],
+                                                                   saved     |->  saved[self],
+                                                                   keep      |->  keep[self],
+                                                                   sorder    |->  sorder[self],
+                                                                   f         |->  f[self] ] >>
+                                                               \o stack[self]]
+                       /\ deps' = [deps EXCEPT ![self] = <<>>]
+                       /\ i' = [i EXCEPT ![self] = 1]
+                       /\ saved' = [saved EXCEPT ![self] = {}]
+                       /\ keep' = [keep EXCEPT ![self] = {}]
+                       /\ sorder' = [sorder EXCEPT ![self] = <<>>]
+                       /\ pc' = [pc EXCEPT ![self] = "lc0"]
+                  ELSE /\ pc' = [pc EXCEPT ![self] = "d2"]
+                       /\ UNCHANGED << stack, f, deps, i, saved, keep, sorder >>
+            /\ UNCHANGED << var, fexists, fimports, fitems, fver, meta, 
+                            metaLoaded, limMemo, order, thy, imported, exc, 
+                            faultAt, ops, good, hist, m, pcidx, dn, dk, dimps, 
+                            names, q, g, glim, deps2, j, sorder2, target, kind, 
+                            lim, arg >>
+
+d2(self) == /\ pc[self] = "d2"
+            /\ IF exc # "none"
+                  THEN /\ pc' = [pc EXCEPT ![self] = Head(stack[self]).pc]
+                       /\ dk' = [dk EXCEPT ![self] = Head(stack[self]).dk]
+                       /\ dimps' = [dimps EXCEPT ![self] = Head(stack[self]).dimps]
+                       /\ dn' = [dn EXCEPT ![self] = Head(stack[self]).dn]
+                       /\ stack' = [stack EXCEPT ![self] = Tail(stack[self])]
+                  ELSE /\ pc' = [pc EXCEPT ![self] = "d2a"]
+                       /\ UNCHANGED << stack, dn, dk, dimps >>
+            /\ UNCHANGED << var, fexists, fimports, fitems, fver, meta, 
+                            metaLoaded, limMemo, order, thy, imported, exc, 
+                            faultAt, ops, good, hist, m, pcidx, names, q, f, 
+                            deps, i, saved, keep, sorder, g, glim, deps2, j, 
+                            sorder2, target, kind, lim, arg >>
+
+d2a(self) == /\ pc[self] = "d2a"
+             /\ dimps' = [dimps EXCEPT ![self] = meta[dn[self]].imports]
+             /\ pc' = [pc EXCEPT ![self] = "d3"]
+             /\ UNCHANGED << var, fexists, fimports, fitems, fver, meta, 
+                             metaLoaded, limMemo, order, thy, imported, exc, 
+                             faultAt, ops, good, hist, stack, m, pcidx, dn, dk, 
+                             names, q, f, deps, i, saved, keep, sorder, g, 
+                             glim, deps2, j, sorder2, target, kind, lim, arg >>
+
+d3(self) == /\ pc[self] = "d3"
+            /\ IF dk[self] <= Len(dimps[self]) /\ exc = "none"
+                  THEN /\ /\ dn' = [dn EXCEPT ![self] = dimps[self][dk[self]]]
+                          /\ stack' = [stack EXCEPT ![self] = << [ procedure |->  "Dfs",
+                                                                   pc        |->  "d4",
+                                                                   dk        |->  dk[self],
+                                                                   dimps     |->  dimps[self],
+                                                                   dn        |->  dn[self] ] >>
+                                                               \o stack[self]]
+                       /\ dk' = [dk EXCEPT ![self] = 1]
+                       /\ dimps' = [dimps EXCEPT ![self] = <<>>]
+                       /\ pc' = [pc EXCEPT ![self] = "d0"]
+                  ELSE /\ pc' = [pc EXCEPT ![self] = "d5"]
+                       /\ UNCHANGED << stack, dn, dk, dimps >>
+            /\ UNCHANGED << var, fexists, fimports, fitems, fver, meta, 
+                            metaLoaded, limMemo, order, thy, imported, exc, 
+                            faultAt, ops, good, hist, m, pcidx, names, q, f, 
+                            deps, i, saved, keep, sorder, g, glim, deps2, j, 
+                            sorder2, target, kind, lim, arg >>
+
+d4(self) == /\ pc[self] = "d4"
+            /\ dk' = [dk EXCEPT ![self] = dk[self] + 1]
+            /\ pc' = [pc EXCEPT ![self] = "d3"]
+            /\ UNCHANGED << var, fexists, fimports, fitems, fver, meta, 
+                            metaLoaded, limMemo, order, thy, imported, exc, 
+                            faultAt, ops, good, hist, stack, m, pcidx, dn, 
+                            dimps, names, q, f, deps, i, saved, keep, sorder, 
+                            g, glim, deps2, j, sorder2, target, kind, lim, arg >>
+
+d5(self) == /\ pc[self] = "d5"
+            /\ IF exc = "none"
+                  THEN /\ order' = Append(order, dn[self])
+                  ELSE /\ TRUE
+                       /\ order' = order
+            /\ pc' = [pc EXCEPT ![self] = Head(stack[self]).pc]
+            /\ dk' = [dk EXCEPT ![self] = Head(stack[self]).dk]
+            /\ dimps' = [dimps EXCEPT ![self] = Head(stack[self]).dimps]
+            /\ dn' = [dn EXCEPT ![self] = Head(stack[self]).dn]
+            /\ stack' = [stack EXCEPT ![self] = Tail(stack[self])]
+            /\ UNCHANGED << var, fexists, fimports, fitems, fver, meta, 
+                            metaLoaded, limMemo, thy, imported, exc, faultAt, 
+                            ops, good, hist, m, pcidx, names, q, f, deps, i, 
+                            saved, keep, sorder, g, glim, deps2, j, sorder2, 
+                            target, kind, lim, arg >>
+
+Dfs(self) == d0(self) \/ d1(self) \/ d2(self) \/ d2a(self) \/ d3(self)
+                \/ d4(self) \/ d5(self)
+
+go1(self) == /\ pc[self] = "go1"
+             /\ IF q[self] <= Len(names[self]) /\ exc = "none"
+                   THEN /\ /\ dn' = [dn EXCEPT ![self] = names[self][q[self]]]
+                           /\ stack' = [stack EXCEPT ![self] = << [ procedure |->  "Dfs",
+                                                                    pc        |->  "go2",
+                                                                    dk        |->  dk[self],
+                                                                    dimps     |->  dimps[self],
+                                                                    dn        |->  dn[self] ] >>
+                                                                \o stack[self]]
+                        /\ dk' = [dk EXCEPT ![self] = 1]
+                        /\ dimps' = [dimps EXCEPT ![self] = <<>>]
+                        /\ pc' = [pc EXCEPT ![self] = "d0"]
+                   ELSE /\ pc' = [pc EXCEPT ![self] = "go3"]
+                        /\ UNCHANGED << stack, dn, dk, dimps >>
+             /\ UNCHANGED << var, fexists, fimports, fitems, fver, meta, 
+                             metaLoaded, limMemo, order, thy, imported, exc, 
+                             faultAt, ops, good, hist, m, pcidx, names, q, f, 
+                             deps, i, saved, keep, sorder, g, glim, deps2, j, 
+                             sorder2, target, kind, lim, arg >>
+
+go2(self) == /\ pc[self] = "go2"
+             /\ q' = [q EXCEPT ![self] = q[self] + 1]
+             /\ pc' = [pc EXCEPT ![self] = "go1"]
+             /\ UNCHANGED << var, fexists, fimports, fitems, fver, meta, 
+                             metaLoaded, limMemo, order, thy, imported, exc, 
+                             faultAt, ops, good, hist, stack, m, pcidx, dn, dk, 
+                             dimps, names, f, deps, i, saved, keep, sorder, g, 
+                             glim, deps2, j, sorder2, target, kind, lim, arg >>
+
+go3(self) == /\ pc[self] = "go3"
+             /\ pc' = [pc EXCEPT ![self] = Head(stack[self]).pc]
+             /\ q' = [q EXCEPT ![self] = Head(stack[self]).q]
+             /\ names' = [names EXCEPT ![self] = Head(stack[self]).names]
+             /\ stack' = [stack EXCEPT ![self] = Tail(stack[self])]
+             /\ UNCHANGED << var, fexists, fimports, fitems, fver, meta, 
+                             metaLoaded, limMemo, order, thy, imported, exc, 
+                             faultAt, ops, good, hist, m, pcidx, dn, dk, dimps, 
+                             f, deps, i, saved, keep, sorder, g, glim, deps2, 
+                             j, sorder2, target, kind, lim, arg >>
+
+GetOrder(self) == go1(self) \/ go2(self) \/ go3(self)
+
 lc0(self) == /\ pc[self] = "lc0"
-             /\ IF f[self] \in cached
+             /\ IF IsCurrent(f[self])
                    THEN /\ pc' = [pc EXCEPT ![self] = Head(stack[self]).pc]
                         /\ deps' = [deps EXCEPT ![self] = Head(stack[self]).deps]
                         /\ i' = [i EXCEPT ![self] = Head(stack[self]).i]
                         /\ saved' = [saved EXCEPT ![self] = Head(stack[self]).saved]
                         /\ keep' = [keep EXCEPT ![self] = Head(stack[self]).keep]
+                        /\ sorder' = [sorder EXCEPT ![self] = Head(stack[self]).sorder]
                         /\ f' = [f EXCEPT ![self] = Head(stack[self]).f]
                         /\ stack' = [stack EXCEPT ![self] = Tail(stack[self])]
-                   ELSE /\ pc' = [pc EXCEPT ![self] = "lc1"]
-                        /\ UNCHANGED << stack, f, deps, i, saved, keep >>
-             /\ UNCHANGED << thy, cached, content, imported, exc, faultAt, ops, 
-                             good, hist, m, pcidx, g, deps2, j, target, kind >>
+                   ELSE /\ pc' = [pc EXCEPT ![self] = "lcm"]
+                        /\ UNCHANGED << stack, f, deps, i, saved, keep, sorder >>
+             /\ UNCHANGED << var, fexists, fimports, fitems, fver, meta, 
+                             metaLoaded, limMemo, order, thy, imported, exc, 
+                             faultAt, ops, good, hist, m, pcidx, dn, dk, dimps, 
+                             names, q, g, glim, deps2, j, sorder2, target, 
+                             kind, lim, arg >>
+
+lcm(self) == /\ pc[self] = "lcm"
+             /\ IF ~metaLoaded
+                   THEN /\ meta' = [t \in Theories |-> IF t \in fexists THEN [EmptyRec EXCEPT !.imports = fimports[t]] ELSE AbsentRec]
+                        /\ metaLoaded' = TRUE
+                        /\ IF ~SaneLib(fexists, fimports)
+                              THEN /\ exc' = "metadata"
+                              ELSE /\ TRUE
+                                   /\ exc' = exc
+                   ELSE /\ TRUE
+                        /\ UNCHANGED << meta, metaLoaded, exc >>
+             /\ pc' = [pc EXCEPT ![self] = "lce"]
+             /\ UNCHANGED << var, fexists, fimports, fitems, fver, limMemo, 
+                             order, thy, imported, faultAt, ops, good, hist, 
+                             stack, m, pcidx, dn, dk, dimps, names, q, f, deps, 
+                             i, saved, keep, sorder, g, glim, deps2, j, 
+                             sorder2, target, kind, lim, arg >>
+
+lce(self) == /\ pc[self] = "lce"
+             /\ IF exc # "none"
+                   THEN /\ pc' = [pc EXCEPT ![self] = Head(stack[self]).pc]
+                        /\ deps' = [deps EXCEPT ![self] = Head(stack[self]).deps]
+                        /\ i' = [i EXCEPT ![self] = Head(stack[self]).i]
+                        /\ saved' = [saved EXCEPT ![self] = Head(stack[self]).saved]
+                        /\ keep' = [keep EXCEPT ![self] = Head(stack[self]).keep]
+                        /\ sorder' = [sorder EXCEPT ![self] = Head(stack[self]).sorder]
+                        /\ f' = [f EXCEPT ![self] = Head(stack[self]).f]
+                        /\ stack' = [stack EXCEPT ![self] = Tail(stack[self])]
+                        /\ UNCHANGED << meta, exc >>
+                   ELSE /\ IF f[self] \notin fexists
+                              THEN /\ IF DropMissing
+                                         THEN /\ meta' = [meta EXCEPT ![f[self]] = AbsentRec]
+                                         ELSE /\ meta' = [meta EXCEPT ![f[self]] = [(IF meta[f[self]].known THEN meta[f[self]] ELSE EmptyRec) EXCEPT !.hasTs = FALSE, !.content = <<>>]]
+                                   /\ exc' = "notfound"
+                                   /\ pc' = [pc EXCEPT ![self] = Head(stack[self]).pc]
+                                   /\ deps' = [deps EXCEPT ![self] = Head(stack[self]).deps]
+                                   /\ i' = [i EXCEPT ![self] = Head(stack[self]).i]
+                                   /\ saved' = [saved EXCEPT ![self] = Head(stack[self]).saved]
+                                   /\ keep' = [keep EXCEPT ![self] = Head(stack[self]).keep]
+                                   /\ sorder' = [sorder EXCEPT ![self] = Head(stack[self]).sorder]
+                                   /\ f' = [f EXCEPT ![self] = Head(stack[self]).f]
+                                   /\ stack' = [stack EXCEPT ![self] = Tail(stack[self])]
+                              ELSE /\ IF IsCurrent(f[self])
+                                         THEN /\ pc' = [pc EXCEPT ![self] = Head(stack[self]).pc]
+                                              /\ deps' = [deps EXCEPT ![self] = Head(stack[self]).deps]
+                                              /\ i' = [i EXCEPT ![self] = Head(stack[self]).i]
+                                              /\ saved' = [saved EXCEPT ![self] = Head(stack[self]).saved]
+                                              /\ keep' = [keep EXCEPT ![self] = Head(stack[self]).keep]
+                                              /\ sorder' = [sorder EXCEPT ![self] = Head(stack[self]).sorder]
+                                              /\ f' = [f EXCEPT ![self] = Head(stack[self]).f]
+                                              /\ stack' = [stack EXCEPT ![self] = Tail(stack[self])]
+                                              /\ meta' = meta
+                                         ELSE /\ meta' = [meta EXCEPT ![f[self]] = [(IF meta[f[self]].known THEN meta[f[self]] ELSE EmptyRec) EXCEPT !.imports = IF RefreshMeta \/ ~meta[f[self]].known THEN fimports[f[self]] ELSE @]]
+                                              /\ pc' = [pc EXCEPT ![self] = "lc1"]
+                                              /\ UNCHANGED << stack, f, deps, 
+                                                              i, saved, keep, 
+                                                              sorder >>
+                                   /\ exc' = exc
+             /\ UNCHANGED << var, fexists, fimports, fitems, fver, metaLoaded, 
+                             limMemo, order, thy, imported, faultAt, ops, good, 
+                             hist, m, pcidx, dn, dk, dimps, names, q, g, glim, 
+                             deps2, j, sorder2, target, kind, lim, arg >>
 
 lc1(self) == /\ pc[self] = "lc1"
-             /\ keep' = [keep EXCEPT ![self] = thy]
              /\ IF LazyImport[f[self]] # "none"
-                   THEN /\ /\ m' = [m EXCEPT ![self] = LazyImport[f[self]]]
+                   THEN /\ keep' = [keep EXCEPT ![self] = thy]
+                        /\ /\ m' = [m EXCEPT ![self] = LazyImport[f[self]]]
                            /\ stack' = [stack EXCEPT ![self] = << [ procedure |->  "ImportModule",
                                                                     pc        |->  "lc2",
                                                                     pcidx     |->  pcidx[self],
@@ -277,278 +780,406 @@ lc1(self) == /\ pc[self] = "lc1"
                                                                 \o stack[self]]
                         /\ pcidx' = [pcidx EXCEPT ![self] = 1]
                         /\ pc' = [pc EXCEPT ![self] = "im0"]
-                   ELSE /\ pc' = [pc EXCEPT ![self] = "lc2"]
-                        /\ UNCHANGED << stack, m, pcidx >>
-             /\ UNCHANGED << thy, cached, content, imported, exc, faultAt, ops, 
-                             good, hist, f, deps, i, saved, g, deps2, j, 
-                             target, kind >>
+                   ELSE /\ pc' = [pc EXCEPT ![self] = "lc3"]
+                        /\ UNCHANGED << stack, m, pcidx, keep >>
+             /\ UNCHANGED << var, fexists, fimports, fitems, fver, meta, 
+                             metaLoaded, limMemo, order, thy, imported, exc, 
+                             faultAt, ops, good, hist, dn, dk, dimps, names, q, 
+                             f, deps, i, saved, sorder, g, glim, deps2, j, 
+                             sorder2, target, kind, lim, arg >>
 
 lc2(self) == /\ pc[self] = "lc2"
              /\ IF RestoreThy
                    THEN /\ thy' = keep[self]
                    ELSE /\ TRUE
                         /\ thy' = thy
-             /\ IF exc # "none"
+             /\ IF exc # "none" \/ (RestoreThy /\ IsCurrent(f[self]))
                    THEN /\ pc' = [pc EXCEPT ![self] = Head(stack[self]).pc]
                         /\ deps' = [deps EXCEPT ![self] = Head(stack[self]).deps]
                         /\ i' = [i EXCEPT ![self] = Head(stack[self]).i]
                         /\ saved' = [saved EXCEPT ![self] = Head(stack[self]).saved]
                         /\ keep' = [keep EXCEPT ![self] = Head(stack[self]).keep]
+                        /\ sorder' = [sorder EXCEPT ![self] = Head(stack[self]).sorder]
                         /\ f' = [f EXCEPT ![self] = Head(stack[self]).f]
                         /\ stack' = [stack EXCEPT ![self] = Tail(stack[self])]
-                   ELSE /\ pc' = [pc EXCEPT ![self] = "lc2b"]
-                        /\ UNCHANGED << stack, f, deps, i, saved, keep >>
-             /\ UNCHANGED << cached, content, imported, exc, faultAt, ops, 
-                             good, hist, m, pcidx, g, deps2, j, target, kind >>
+                   ELSE /\ pc' = [pc EXCEPT ![self] = "lc3"]
+                        /\ UNCHANGED << stack, f, deps, i, saved, keep, sorder >>
+             /\ UNCHANGED << var, fexists, fimports, fitems, fver, meta, 
+                             metaLoaded, limMemo, order, imported, exc, 
+                             faultAt, ops, good, hist, m, pcidx, dn, dk, dimps, 
+                             names, q, g, glim, deps2, j, sorder2, target, 
+                             kind, lim, arg >>
 
-lc2b(self) == /\ pc[self] = "lc2b"
-              /\ IF RestoreThy /\ f[self] \in cached
-                    THEN /\ pc' = [pc EXCEPT ![self] = Head(stack[self]).pc]
+lc3(self) == /\ pc[self] = "lc3"
+             /\ sorder' = [sorder EXCEPT ![self] = order]
+             /\ IF \A x \in RangeS(meta[f[self]].imports) : IsSettled(x)
+                   THEN /\ order' = DepOrderF(MetaImports, meta[f[self]].imports, <<>>)
+                        /\ pc' = [pc EXCEPT ![self] = "lc3a"]
+                        /\ UNCHANGED << stack, names, q >>
+                   ELSE /\ order' = <<>>
+                        /\ /\ names' = [names EXCEPT ![self] = meta[f[self]].imports]
+                           /\ stack' = [stack EXCEPT ![self] = << [ procedure |->  "GetOrder",
+                                                                    pc        |->  "lc3a",
+                                                                    q         |->  q[self],
+                                                                    names     |->  names[self] ] >>
+                                                                \o stack[self]]
+                        /\ q' = [q EXCEPT ![self] = 1]
+                        /\ pc' = [pc EXCEPT ![self] = "go1"]
+             /\ UNCHANGED << var, fexists, fimports, fitems, fver, meta, 
+                             metaLoaded, limMemo, thy, imported, exc, faultAt, 
+                             ops, good, hist, m, pcidx, dn, dk, dimps, f, deps, 
+                             i, saved, keep, g, glim, deps2, j, sorder2, 
+                             target, kind, lim, arg >>
+
+lc3a(self) == /\ pc[self] = "lc3a"
+              /\ IF exc # "none"
+                    THEN /\ order' = sorder[self]
+                         /\ pc' = [pc EXCEPT ![self] = Head(stack[self]).pc]
                          /\ deps' = [deps EXCEPT ![self] = Head(stack[self]).deps]
                          /\ i' = [i EXCEPT ![self] = Head(stack[self]).i]
                          /\ saved' = [saved EXCEPT ![self] = Head(stack[self]).saved]
                          /\ keep' = [keep EXCEPT ![self] = Head(stack[self]).keep]
+                         /\ sorder' = [sorder EXCEPT ![self] = Head(stack[self]).sorder]
                          /\ f' = [f EXCEPT ![self] = Head(stack[self]).f]
                          /\ stack' = [stack EXCEPT ![self] = Tail(stack[self])]
-                    ELSE /\ pc' = [pc EXCEPT ![self] = "lc3"]
-                         /\ UNCHANGED << stack, f, deps, i, saved, keep >>
-              /\ UNCHANGED << thy, cached, content, imported, exc, faultAt, 
-                              ops, good, hist, m, pcidx, g, deps2, j, target, 
-                              kind >>
-
-lc3(self) == /\ pc[self] = "lc3"
-             /\ deps' = [deps EXCEPT ![self] = DepOrder(Imports[f[self]], <<>>)]
-             /\ saved' = [saved EXCEPT ![self] = thy]
-             /\ thy' = {}
-             /\ pc' = [pc EXCEPT ![self] = "lc4"]
-             /\ UNCHANGED << cached, content, imported, exc, faultAt, ops, 
-                             good, hist, stack, m, pcidx, f, i, keep, g, deps2, 
-                             j, target, kind >>
+                         /\ thy' = thy
+                    ELSE /\ deps' = [deps EXCEPT ![self] = order]
+                         /\ order' = sorder[self]
+                         /\ saved' = [saved EXCEPT ![self] = thy]
+                         /\ thy' = {}
+                         /\ pc' = [pc EXCEPT ![self] = "lc4"]
+                         /\ UNCHANGED << stack, f, i, keep, sorder >>
+              /\ UNCHANGED << var, fexists, fimports, fitems, fver, meta, 
+                              metaLoaded, limMemo, imported, exc, faultAt, ops, 
+                              good, hist, m, pcidx, dn, dk, dimps, names, q, g, 
+                              glim, deps2, j, sorder2, target, kind, lim, arg >>
 
 lc4(self) == /\ pc[self] = "lc4"
              /\ IF i[self] <= Len(deps[self]) /\ exc = "none"
-                   THEN /\ /\ f' = [f EXCEPT ![self] = deps[self][i[self]]]
-                           /\ stack' = [stack EXCEPT ![self] = << [ procedure |->  "LoadCache",
-                                                                    pc        |->  "lc5",
-                                                                    deps      |->  deps[self],
-                                                                    i         |->  i[self],
-                                                                    saved     |->  saved[self],
-                                                                    keep      |->  keep[self],
-                                                                    f         |->  f[self] ] >>
-                                                                \o stack[self]]
-                        /\ deps' = [deps EXCEPT ![self] = <<>>]
-                        /\ i' = [i EXCEPT ![self] = 1]
-                        /\ saved' = [saved EXCEPT ![self] = {}]
-                        /\ keep' = [keep EXCEPT ![self] = {}]
-                        /\ pc' = [pc EXCEPT ![self] = "lc0"]
+                   THEN /\ IF \A k \in i[self]..Len(deps[self]) : IsCurrent(deps[self][k])
+                              THEN /\ IF \E k \in i[self]..Len(deps[self]) : GoodToks(meta[deps[self][k]].content, Len(meta[deps[self][k]].content)) \cap thy # {}
+                                         THEN /\ exc' = "exists"
+                                              /\ thy' = thy
+                                         ELSE /\ thy' = (thy \cup UNION { GoodToks(meta[deps[self][k]].content, Len(meta[deps[self][k]].content)) : k \in i[self]..Len(deps[self]) })
+                                              /\ exc' = exc
+                                   /\ i' = [i EXCEPT ![self] = Len(deps[self]) + 1]
+                                   /\ pc' = [pc EXCEPT ![self] = "lc4"]
+                                   /\ UNCHANGED << stack, f, deps, saved, keep, 
+                                                   sorder >>
+                              ELSE /\ /\ f' = [f EXCEPT ![self] = deps[self][i[self]]]
+                                      /\ stack' = [stack EXCEPT ![self] = << [ procedure |->  "LoadCache",
+                                                                               pc        |->  "lc5",
+                                                                               deps      |->  deps[self],
+                                                                               i         |->  i[self],
+                                                                               saved     |->  saved[self],
+                                                                               keep      |->  keep[self],
+                                                                               sorder    |->  sorder[self],
+                                                                               f         |->  f[self] ] >>
+                                                                           \o stack[self]]
+                                   /\ deps' = [deps EXCEPT ![self] = <<>>]
+                                   /\ i' = [i EXCEPT ![self] = 1]
+                                   /\ saved' = [saved EXCEPT ![self] = {}]
+                                   /\ keep' = [keep EXCEPT ![self] = {}]
+                                   /\ sorder' = [sorder EXCEPT ![self] = <<>>]
+                                   /\ pc' = [pc EXCEPT ![self] = "lc0"]
+                                   /\ UNCHANGED << thy, exc >>
                    ELSE /\ pc' = [pc EXCEPT ![self] = "lc6"]
-                        /\ UNCHANGED << stack, f, deps, i, saved, keep >>
-             /\ UNCHANGED << thy, cached, content, imported, exc, faultAt, ops, 
-                             good, hist, m, pcidx, g, deps2, j, target, kind >>
+                        /\ UNCHANGED << thy, exc, stack, f, deps, i, saved, 
+                                        keep, sorder >>
+             /\ UNCHANGED << var, fexists, fimports, fitems, fver, meta, 
+                             metaLoaded, limMemo, order, imported, faultAt, 
+                             ops, good, hist, m, pcidx, dn, dk, dimps, names, 
+                             q, g, glim, deps2, j, sorder2, target, kind, lim, 
+                             arg >>
 
 lc5(self) == /\ pc[self] = "lc5"
              /\ IF exc = "none"
-                   THEN /\ IF HasTheory(thy, deps[self][i[self]])
+                   THEN /\ IF GoodToks(meta[(deps[self][i[self]])].content, Len(meta[(deps[self][i[self]])].content)) \cap thy # {}
                               THEN /\ exc' = "exists"
                                    /\ thy' = thy
-                              ELSE /\ thy' = (thy \cup {<<deps[self][i[self]], content[deps[self][i[self]]]>>})
+                              ELSE /\ thy' = (thy \cup GoodToks(meta[(deps[self][i[self]])].content, Len(meta[(deps[self][i[self]])].content)))
                                    /\ exc' = exc
                    ELSE /\ TRUE
                         /\ UNCHANGED << thy, exc >>
              /\ i' = [i EXCEPT ![self] = i[self] + 1]
              /\ pc' = [pc EXCEPT ![self] = "lc4"]
-             /\ UNCHANGED << cached, content, imported, faultAt, ops, good, 
-                             hist, stack, m, pcidx, f, deps, saved, keep, g, 
-                             deps2, j, target, kind >>
+             /\ UNCHANGED << var, fexists, fimports, fitems, fver, meta, 
+                             metaLoaded, limMemo, order, imported, faultAt, 
+                             ops, good, hist, stack, m, pcidx, dn, dk, dimps, 
+                             names, q, f, deps, saved, keep, sorder, g, glim, 
+                             deps2, j, sorder2, target, kind, lim, arg >>
 
 lc6(self) == /\ pc[self] = "lc6"
              /\ IF exc = "none"
                    THEN /\ IF f[self] = faultAt
                               THEN /\ IF ~TimestampLast
-                                         THEN /\ cached' = (cached \cup {f[self]})
-                                              /\ content' = [content EXCEPT ![f[self]] = "partial"]
+                                         THEN /\ meta' = [meta EXCEPT ![f[self]] = [meta[f[self]] EXCEPT !.hasTs = TRUE, !.ts = fver[f[self]],
+                                                                                                         !.content = Parsed(fitems, f[self], Len(fitems[f[self]]) \div 2, CtxGood(fexists, fimports, fitems, f[self], thy))]]
                                          ELSE /\ TRUE
-                                              /\ UNCHANGED << cached, content >>
+                                              /\ meta' = meta
                                    /\ exc' = "fault"
-                                   /\ thy' = thy
-                              ELSE /\ IF HasTheory(thy, f[self])
+                              ELSE /\ IF Toks(fitems, f[self]) \cap thy # {}
                                          THEN /\ IF ~TimestampLast
-                                                    THEN /\ cached' = (cached \cup {f[self]})
-                                                         /\ content' = [content EXCEPT ![f[self]] = "partial"]
+                                                    THEN /\ meta' = [meta EXCEPT ![f[self]] = [meta[f[self]] EXCEPT !.hasTs = TRUE, !.ts = fver[f[self]],
+                                                                                                                    !.content = Parsed(fitems, f[self], Len(fitems[f[self]]) \div 2, CtxGood(fexists, fimports, fitems, f[self], thy))]]
                                                     ELSE /\ TRUE
-                                                         /\ UNCHANGED << cached, 
-                                                                         content >>
+                                                         /\ meta' = meta
                                               /\ exc' = "exists"
-                                              /\ thy' = thy
-                                         ELSE /\ cached' = (cached \cup {f[self]})
-                                              /\ content' = [content EXCEPT ![f[self]] = "full"]
-                                              /\ thy' = (thy \cup {<<f[self], "full">>})
+                                         ELSE /\ meta' = [meta EXCEPT ![f[self]] = [meta[f[self]] EXCEPT !.hasTs = TRUE, !.ts = fver[f[self]],
+                                                                                                         !.content = Parsed(fitems, f[self], Len(fitems[f[self]]), CtxGood(fexists, fimports, fitems, f[self], thy))]]
                                               /\ exc' = exc
                    ELSE /\ TRUE
-                        /\ UNCHANGED << thy, cached, content, exc >>
-             /\ pc' = [pc EXCEPT ![self] = "lc7"]
-             /\ UNCHANGED << imported, faultAt, ops, good, hist, stack, m, 
-                             pcidx, f, deps, i, saved, keep, g, deps2, j, 
-                             target, kind >>
-
-lc7(self) == /\ pc[self] = "lc7"
+                        /\ UNCHANGED << meta, exc >>
              /\ thy' = saved[self]
              /\ pc' = [pc EXCEPT ![self] = Head(stack[self]).pc]
              /\ deps' = [deps EXCEPT ![self] = Head(stack[self]).deps]
              /\ i' = [i EXCEPT ![self] = Head(stack[self]).i]
              /\ saved' = [saved EXCEPT ![self] = Head(stack[self]).saved]
              /\ keep' = [keep EXCEPT ![self] = Head(stack[self]).keep]
+             /\ sorder' = [sorder EXCEPT ![self] = Head(stack[self]).sorder]
              /\ f' = [f EXCEPT ![self] = Head(stack[self]).f]
              /\ stack' = [stack EXCEPT ![self] = Tail(stack[self])]
-             /\ UNCHANGED << cached, content, imported, exc, faultAt, ops, 
-                             good, hist, m, pcidx, g, deps2, j, target, kind >>
+             /\ UNCHANGED << var, fexists, fimports, fitems, fver, metaLoaded, 
+                             limMemo, order, imported, faultAt, ops, good, 
+                             hist, m, pcidx, dn, dk, dimps, names, q, g, glim, 
+                             deps2, j, sorder2, target, kind, lim, arg >>
 
-LoadCache(self) == lc0(self) \/ lc1(self) \/ lc2(self) \/ lc2b(self)
-                      \/ lc3(self) \/ lc4(self) \/ lc5(self) \/ lc6(self)
-                      \/ lc7(self)
+LoadCache(self) == lc0(self) \/ lcm(self) \/ lce(self) \/ lc1(self)
+                      \/ lc2(self) \/ lc3(self) \/ lc3a(self) \/ lc4(self)
+                      \/ lc5(self) \/ lc6(self)
 
 lt0(self) == /\ pc[self] = "lt0"
-             /\ /\ f' = [f EXCEPT ![self] = g[self]]
-                /\ stack' = [stack EXCEPT ![self] = << [ procedure |->  "LoadCache",
-                                                         pc        |->  "lt1",
-                                                         deps      |->  deps[self],
-                                                         i         |->  i[self],
-                                                         saved     |->  saved[self],
-                                                         keep      |->  keep[self],
-                                                         f         |->  f[self] ] >>
-                                                     \o stack[self]]
-             /\ deps' = [deps EXCEPT ![self] = <<>>]
-             /\ i' = [i EXCEPT ![self] = 1]
-             /\ saved' = [saved EXCEPT ![self] = {}]
-             /\ keep' = [keep EXCEPT ![self] = {}]
-             /\ pc' = [pc EXCEPT ![self] = "lc0"]
-             /\ UNCHANGED << thy, cached, content, imported, exc, faultAt, ops, 
-                             good, hist, m, pcidx, g, deps2, j, target, kind >>
-
-lt1(self) == /\ pc[self] = "lt1"
-             /\ IF exc # "none"
-                   THEN /\ pc' = [pc EXCEPT ![self] = Head(stack[self]).pc]
-                        /\ deps2' = [deps2 EXCEPT ![self] = Head(stack[self]).deps2]
-                        /\ j' = [j EXCEPT ![self] = Head(stack[self]).j]
-                        /\ g' = [g EXCEPT ![self] = Head(stack[self]).g]
-                        /\ stack' = [stack EXCEPT ![self] = Tail(stack[self])]
-                   ELSE /\ pc' = [pc EXCEPT ![self] = "lt2"]
-                        /\ UNCHANGED << stack, g, deps2, j >>
-             /\ UNCHANGED << thy, cached, content, imported, exc, faultAt, ops, 
-                             good, hist, m, pcidx, f, deps, i, saved, keep, 
-                             target, kind >>
-
-lt2(self) == /\ pc[self] = "lt2"
-             /\ deps2' = [deps2 EXCEPT ![self] = DepOrder(Imports[g[self]], <<>>)]
-             /\ thy' = {}
-             /\ pc' = [pc EXCEPT ![self] = "lt3"]
-             /\ UNCHANGED << cached, content, imported, exc, faultAt, ops, 
-                             good, hist, stack, m, pcidx, f, deps, i, saved, 
-                             keep, g, j, target, kind >>
-
-lt3(self) == /\ pc[self] = "lt3"
-             /\ IF j[self] <= Len(deps2[self]) /\ exc = "none"
-                   THEN /\ /\ f' = [f EXCEPT ![self] = deps2[self][j[self]]]
+             /\ IF ~IsCurrent(g[self])
+                   THEN /\ /\ f' = [f EXCEPT ![self] = g[self]]
                            /\ stack' = [stack EXCEPT ![self] = << [ procedure |->  "LoadCache",
-                                                                    pc        |->  "lt4",
+                                                                    pc        |->  "lt1",
                                                                     deps      |->  deps[self],
                                                                     i         |->  i[self],
                                                                     saved     |->  saved[self],
                                                                     keep      |->  keep[self],
+                                                                    sorder    |->  sorder[self],
                                                                     f         |->  f[self] ] >>
                                                                 \o stack[self]]
                         /\ deps' = [deps EXCEPT ![self] = <<>>]
                         /\ i' = [i EXCEPT ![self] = 1]
                         /\ saved' = [saved EXCEPT ![self] = {}]
                         /\ keep' = [keep EXCEPT ![self] = {}]
+                        /\ sorder' = [sorder EXCEPT ![self] = <<>>]
                         /\ pc' = [pc EXCEPT ![self] = "lc0"]
+                   ELSE /\ pc' = [pc EXCEPT ![self] = "lt1"]
+                        /\ UNCHANGED << stack, f, deps, i, saved, keep, sorder >>
+             /\ UNCHANGED << var, fexists, fimports, fitems, fver, meta, 
+                             metaLoaded, limMemo, order, thy, imported, exc, 
+                             faultAt, ops, good, hist, m, pcidx, dn, dk, dimps, 
+                             names, q, g, glim, deps2, j, sorder2, target, 
+                             kind, lim, arg >>
+
+lt1(self) == /\ pc[self] = "lt1"
+             /\ IF exc # "none"
+                   THEN /\ pc' = [pc EXCEPT ![self] = Head(stack[self]).pc]
+                        /\ deps2' = [deps2 EXCEPT ![self] = Head(stack[self]).deps2]
+                        /\ j' = [j EXCEPT ![self] = Head(stack[self]).j]
+                        /\ sorder2' = [sorder2 EXCEPT ![self] = Head(stack[self]).sorder2]
+                        /\ g' = [g EXCEPT ![self] = Head(stack[self]).g]
+                        /\ glim' = [glim EXCEPT ![self] = Head(stack[self]).glim]
+                        /\ stack' = [stack EXCEPT ![self] = Tail(stack[self])]
+                   ELSE /\ pc' = [pc EXCEPT ![self] = "lt1a"]
+                        /\ UNCHANGED << stack, g, glim, deps2, j, sorder2 >>
+             /\ UNCHANGED << var, fexists, fimports, fitems, fver, meta, 
+                             metaLoaded, limMemo, order, thy, imported, exc, 
+                             faultAt, ops, good, hist, m, pcidx, dn, dk, dimps, 
+                             names, q, f, deps, i, saved, keep, sorder, target, 
+                             kind, lim, arg >>
+
+lt1a(self) == /\ pc[self] = "lt1a"
+              /\ sorder2' = [sorder2 EXCEPT ![self] = order]
+              /\ IF \A x \in RangeS(meta[g[self]].imports) : IsSettled(x)
+                    THEN /\ order' = DepOrderF(MetaImports, meta[g[self]].imports, <<>>)
+                         /\ pc' = [pc EXCEPT ![self] = "lt2"]
+                         /\ UNCHANGED << stack, names, q >>
+                    ELSE /\ order' = <<>>
+                         /\ /\ names' = [names EXCEPT ![self] = meta[g[self]].imports]
+                            /\ stack' = [stack EXCEPT ![self] = << [ procedure |->  "GetOrder",
+                                                                     pc        |->  "lt2",
+                                                                     q         |->  q[self],
+                                                                     names     |->  names[self] ] >>
+                                                                 \o stack[self]]
+                         /\ q' = [q EXCEPT ![self] = 1]
+                         /\ pc' = [pc EXCEPT ![self] = "go1"]
+              /\ UNCHANGED << var, fexists, fimports, fitems, fver, meta, 
+                              metaLoaded, limMemo, thy, imported, exc, faultAt, 
+                              ops, good, hist, m, pcidx, dn, dk, dimps, f, 
+                              deps, i, saved, keep, sorder, g, glim, deps2, j, 
+                              target, kind, lim, arg >>
+
+lt2(self) == /\ pc[self] = "lt2"
+             /\ IF exc # "none"
+                   THEN /\ order' = sorder2[self]
+                        /\ pc' = [pc EXCEPT ![self] = Head(stack[self]).pc]
+                        /\ deps2' = [deps2 EXCEPT ![self] = Head(stack[self]).deps2]
+                        /\ j' = [j EXCEPT ![self] = Head(stack[self]).j]
+                        /\ sorder2' = [sorder2 EXCEPT ![self] = Head(stack[self]).sorder2]
+                        /\ g' = [g EXCEPT ![self] = Head(stack[self]).g]
+                        /\ glim' = [glim EXCEPT ![self] = Head(stack[self]).glim]
+                        /\ stack' = [stack EXCEPT ![self] = Tail(stack[self])]
+                        /\ thy' = thy
+                   ELSE /\ deps2' = [deps2 EXCEPT ![self] = order]
+                        /\ order' = sorder2[self]
+                        /\ thy' = {}
+                        /\ pc' = [pc EXCEPT ![self] = "lt3"]
+                        /\ UNCHANGED << stack, g, glim, j, sorder2 >>
+             /\ UNCHANGED << var, fexists, fimports, fitems, fver, meta, 
+                             metaLoaded, limMemo, imported, exc, faultAt, ops, 
+                             good, hist, m, pcidx, dn, dk, dimps, names, q, f, 
+                             deps, i, saved, keep, sorder, target, kind, lim, 
+                             arg >>
+
+lt3(self) == /\ pc[self] = "lt3"
+             /\ IF j[self] <= Len(deps2[self]) /\ exc = "none"
+                   THEN /\ IF \A k \in j[self]..Len(deps2[self]) : IsCurrent(deps2[self][k])
+                              THEN /\ IF \E k \in j[self]..Len(deps2[self]) : GoodToks(meta[deps2[self][k]].content, Len(meta[deps2[self][k]].content)) \cap thy # {}
+                                         THEN /\ exc' = "exists"
+                                              /\ thy' = thy
+                                         ELSE /\ thy' = (thy \cup UNION { GoodToks(meta[deps2[self][k]].content, Len(meta[deps2[self][k]].content)) : k \in j[self]..Len(deps2[self]) })
+                                              /\ exc' = exc
+                                   /\ j' = [j EXCEPT ![self] = Len(deps2[self]) + 1]
+                                   /\ pc' = [pc EXCEPT ![self] = "lt3"]
+                                   /\ UNCHANGED << stack, f, deps, i, saved, 
+                                                   keep, sorder >>
+                              ELSE /\ /\ f' = [f EXCEPT ![self] = deps2[self][j[self]]]
+                                      /\ stack' = [stack EXCEPT ![self] = << [ procedure |->  "LoadCache",
+                                                                               pc        |->  "lt4",
+                                                                               deps      |->  deps[self],
+                                                                               i         |->  i[self],
+                                                                               saved     |->  saved[self],
+                                                                               keep      |->  keep[self],
+                                                                               sorder    |->  sorder[self],
+                                                                               f         |->  f[self] ] >>
+                                                                           \o stack[self]]
+                                   /\ deps' = [deps EXCEPT ![self] = <<>>]
+                                   /\ i' = [i EXCEPT ![self] = 1]
+                                   /\ saved' = [saved EXCEPT ![self] = {}]
+                                   /\ keep' = [keep EXCEPT ![self] = {}]
+                                   /\ sorder' = [sorder EXCEPT ![self] = <<>>]
+                                   /\ pc' = [pc EXCEPT ![self] = "lc0"]
+                                   /\ UNCHANGED << thy, exc, j >>
                    ELSE /\ pc' = [pc EXCEPT ![self] = "lt5"]
-                        /\ UNCHANGED << stack, f, deps, i, saved, keep >>
-             /\ UNCHANGED << thy, cached, content, imported, exc, faultAt, ops, 
-                             good, hist, m, pcidx, g, deps2, j, target, kind >>
+                        /\ UNCHANGED << thy, exc, stack, f, deps, i, saved, 
+                                        keep, sorder, j >>
+             /\ UNCHANGED << var, fexists, fimports, fitems, fver, meta, 
+                             metaLoaded, limMemo, order, imported, faultAt, 
+                             ops, good, hist, m, pcidx, dn, dk, dimps, names, 
+                             q, g, glim, deps2, sorder2, target, kind, lim, 
+                             arg >>
 
 lt4(self) == /\ pc[self] = "lt4"
              /\ IF exc = "none"
-                   THEN /\ IF HasTheory(thy, deps2[self][j[self]])
+                   THEN /\ IF GoodToks(meta[(deps2[self][j[self]])].content, Len(meta[(deps2[self][j[self]])].content)) \cap thy # {}
                               THEN /\ exc' = "exists"
                                    /\ thy' = thy
-                              ELSE /\ thy' = (thy \cup {<<deps2[self][j[self]], content[deps2[self][j[self]]]>>})
+                              ELSE /\ thy' = (thy \cup GoodToks(meta[(deps2[self][j[self]])].content, Len(meta[(deps2[self][j[self]])].content)))
                                    /\ exc' = exc
                    ELSE /\ TRUE
                         /\ UNCHANGED << thy, exc >>
              /\ j' = [j EXCEPT ![self] = j[self] + 1]
              /\ pc' = [pc EXCEPT ![self] = "lt3"]
-             /\ UNCHANGED << cached, content, imported, faultAt, ops, good, 
-                             hist, stack, m, pcidx, f, deps, i, saved, keep, g, 
-                             deps2, target, kind >>
+             /\ UNCHANGED << var, fexists, fimports, fitems, fver, meta, 
+                             metaLoaded, limMemo, order, imported, faultAt, 
+                             ops, good, hist, stack, m, pcidx, dn, dk, dimps, 
+                             names, q, f, deps, i, saved, keep, sorder, g, 
+                             glim, deps2, sorder2, target, kind, lim, arg >>
 
 lt5(self) == /\ pc[self] = "lt5"
              /\ IF exc = "none"
-                   THEN /\ IF HasTheory(thy, g[self])
-                              THEN /\ exc' = "exists"
-                                   /\ thy' = thy
-                              ELSE /\ thy' = (thy \cup {<<g[self], content[g[self]]>>})
-                                   /\ exc' = exc
+                   THEN /\ LET c == meta[g[self]].content IN
+                             LET memo == { x \in limMemo[g[self]] : x[1] = glim[self] } IN
+                               LET p == IF glim[self] = 0 THEN Len(c) + 1
+                                        ELSE IF ~LimitById /\ memo # {} THEN (CHOOSE x \in memo : TRUE)[2]
+                                        ELSE PosOfLimit(c, glim[self]) IN
+                                 IF p = 0
+                                    THEN /\ exc' = "nolimit"
+                                         /\ UNCHANGED << limMemo, thy >>
+                                    ELSE /\ IF ~LimitById /\ glim[self] # 0
+                                               THEN /\ limMemo' = [limMemo EXCEPT ![g[self]] = limMemo[g[self]] \cup {<<glim[self], p>>}]
+                                               ELSE /\ TRUE
+                                                    /\ UNCHANGED limMemo
+                                         /\ IF GoodToks(c, IF p - 1 <= Len(c) THEN p - 1 ELSE Len(c)) \cap thy # {}
+                                               THEN /\ exc' = "exists"
+                                                    /\ thy' = thy
+                                               ELSE /\ thy' = (thy \cup GoodToks(c, IF p - 1 <= Len(c) THEN p - 1 ELSE Len(c)))
+                                                    /\ exc' = exc
                    ELSE /\ TRUE
-                        /\ UNCHANGED << thy, exc >>
-             /\ pc' = [pc EXCEPT ![self] = "lt6"]
-             /\ UNCHANGED << cached, content, imported, faultAt, ops, good, 
-                             hist, stack, m, pcidx, f, deps, i, saved, keep, g, 
-                             deps2, j, target, kind >>
-
-lt6(self) == /\ pc[self] = "lt6"
+                        /\ UNCHANGED << limMemo, thy, exc >>
              /\ pc' = [pc EXCEPT ![self] = Head(stack[self]).pc]
              /\ deps2' = [deps2 EXCEPT ![self] = Head(stack[self]).deps2]
              /\ j' = [j EXCEPT ![self] = Head(stack[self]).j]
+             /\ sorder2' = [sorder2 EXCEPT ![self] = Head(stack[self]).sorder2]
              /\ g' = [g EXCEPT ![self] = Head(stack[self]).g]
+             /\ glim' = [glim EXCEPT ![self] = Head(stack[self]).glim]
              /\ stack' = [stack EXCEPT ![self] = Tail(stack[self])]
-             /\ UNCHANGED << thy, cached, content, imported, exc, faultAt, ops, 
-                             good, hist, m, pcidx, f, deps, i, saved, keep, 
-                             target, kind >>
+             /\ UNCHANGED << var, fexists, fimports, fitems, fver, meta, 
+                             metaLoaded, order, imported, faultAt, ops, good, 
+                             hist, m, pcidx, dn, dk, dimps, names, q, f, deps, 
+                             i, saved, keep, sorder, target, kind, lim, arg >>
 
-LoadTheory(self) == lt0(self) \/ lt1(self) \/ lt2(self) \/ lt3(self)
-                       \/ lt4(self) \/ lt5(self) \/ lt6(self)
+LoadTheory(self) == lt0(self) \/ lt1(self) \/ lt1a(self) \/ lt2(self)
+                       \/ lt3(self) \/ lt4(self) \/ lt5(self)
 
 m0 == /\ pc["main"] = "m0"
       /\ IF ops < MaxOps
             THEN /\ \/ /\ \E t \in OpTheories:
-                            target' = t
+                            \E lm \in LimitsOf[t]:
+                              /\ target' = t
+                              /\ lim' = lm
                        /\ kind' = "load"
                        /\ exc' = "none"
                        /\ faultAt' = "none"
+                       /\ arg' = <<>>
                        /\ /\ g' = [g EXCEPT !["main"] = target']
+                          /\ glim' = [glim EXCEPT !["main"] = lim']
                           /\ stack' = [stack EXCEPT !["main"] = << [ procedure |->  "LoadTheory",
                                                                      pc        |->  "m1",
                                                                      deps2     |->  deps2["main"],
                                                                      j         |->  j["main"],
-                                                                     g         |->  g["main"] ] >>
+                                                                     sorder2   |->  sorder2["main"],
+                                                                     g         |->  g["main"],
+                                                                     glim      |->  glim["main"] ] >>
                                                                  \o stack["main"]]
                        /\ deps2' = [deps2 EXCEPT !["main"] = <<>>]
                        /\ j' = [j EXCEPT !["main"] = 1]
+                       /\ sorder2' = [sorder2 EXCEPT !["main"] = <<>>]
                        /\ pc' = [pc EXCEPT !["main"] = "lt0"]
-                       /\ UNCHANGED <<m, pcidx>>
+                       /\ UNCHANGED <<fexists, fimports, fitems, fver, m, pcidx>>
                     \/ /\ AllowFault
                        /\ \E t \in OpTheories:
                             target' = t
                        /\ kind' = "fault"
                        /\ exc' = "none"
                        /\ faultAt' = target'
+                       /\ lim' = 0
+                       /\ arg' = <<>>
                        /\ /\ g' = [g EXCEPT !["main"] = target']
+                          /\ glim' = [glim EXCEPT !["main"] = 0]
                           /\ stack' = [stack EXCEPT !["main"] = << [ procedure |->  "LoadTheory",
                                                                      pc        |->  "m1",
                                                                      deps2     |->  deps2["main"],
                                                                      j         |->  j["main"],
-                                                                     g         |->  g["main"] ] >>
+                                                                     sorder2   |->  sorder2["main"],
+                                                                     g         |->  g["main"],
+                                                                     glim      |->  glim["main"] ] >>
                                                                  \o stack["main"]]
                        /\ deps2' = [deps2 EXCEPT !["main"] = <<>>]
                        /\ j' = [j EXCEPT !["main"] = 1]
+                       /\ sorder2' = [sorder2 EXCEPT !["main"] = <<>>]
                        /\ pc' = [pc EXCEPT !["main"] = "lt0"]
-                       /\ UNCHANGED <<m, pcidx>>
+                       /\ UNCHANGED <<fexists, fimports, fitems, fver, m, pcidx>>
                     \/ /\ \E mm \in OpModules:
                             target' = mm
                        /\ kind' = "import"
                        /\ exc' = "none"
                        /\ faultAt' = "none"
+                       /\ lim' = 0
+                       /\ arg' = <<>>
                        /\ /\ m' = [m EXCEPT !["main"] = target']
                           /\ stack' = [stack EXCEPT !["main"] = << [ procedure |->  "ImportModule",
                                                                      pc        |->  "m1",
@@ -557,38 +1188,70 @@ m0 == /\ pc["main"] = "m0"
                                                                  \o stack["main"]]
                        /\ pcidx' = [pcidx EXCEPT !["main"] = 1]
                        /\ pc' = [pc EXCEPT !["main"] = "im0"]
-                       /\ UNCHANGED <<g, deps2, j>>
+                       /\ UNCHANGED <<fexists, fimports, fitems, fver, g, glim, deps2, j, sorder2>>
+                    \/ /\ \E o \in { x \in FileOps : FileOpEnabled(x) }:
+                            /\ kind' = o[1]
+                            /\ target' = o[2]
+                            /\ lim' = o[3]
+                            /\ arg' = o[4]
+                            /\ exc' = "none"
+                            /\ faultAt' = "none"
+                            /\ IF o[1] = "create"
+                                  THEN /\ fexists' = (fexists \cup {o[2]})
+                                       /\ fimports' = [fimports EXCEPT ![o[2]] = o[4]]
+                                       /\ fitems' = [fitems EXCEPT ![o[2]] = Items0[o[2]]]
+                                       /\ fver' = [fver EXCEPT ![o[2]] = fver[o[2]] + 1]
+                                  ELSE /\ IF o[1] = "remove"
+                                             THEN /\ fexists' = fexists \ {o[2]}
+                                                  /\ UNCHANGED << fimports, 
+                                                                  fitems, fver >>
+                                             ELSE /\ IF o[1] = "reimport"
+                                                        THEN /\ fimports' = [fimports EXCEPT ![o[2]] = o[4]]
+                                                             /\ fver' = [fver EXCEPT ![o[2]] = fver[o[2]] + 1]
+                                                             /\ UNCHANGED fitems
+                                                        ELSE /\ IF o[1] = "ins"
+                                                                   THEN /\ fitems' = [fitems EXCEPT ![o[2]] = InsertAt(fitems[o[2]], o[3], 100 + ops)]
+                                                                        /\ fver' = [fver EXCEPT ![o[2]] = fver[o[2]] + 1]
+                                                                   ELSE /\ fitems' = [fitems EXCEPT ![o[2]] = RemoveAt(fitems[o[2]], o[3])]
+                                                                        /\ fver' = [fver EXCEPT ![o[2]] = fver[o[2]] + 1]
+                                                             /\ UNCHANGED fimports
+                                                  /\ UNCHANGED fexists
+                       /\ pc' = [pc EXCEPT !["main"] = "m1"]
+                       /\ UNCHANGED <<stack, m, pcidx, g, glim, deps2, j, sorder2>>
             ELSE /\ pc' = [pc EXCEPT !["main"] = "Done"]
-                 /\ UNCHANGED << exc, faultAt, stack, m, pcidx, g, deps2, j, 
-                                 target, kind >>
-      /\ UNCHANGED << thy, cached, content, imported, ops, good, hist, f, deps, 
-                      i, saved, keep >>
+                 /\ UNCHANGED << fexists, fimports, fitems, fver, exc, faultAt, 
+                                 stack, m, pcidx, g, glim, deps2, j, sorder2, 
+                                 target, kind, lim, arg >>
+      /\ UNCHANGED << var, meta, metaLoaded, limMemo, order, thy, imported, 
+                      ops, good, hist, dn, dk, dimps, names, q, f, deps, i, 
+                      saved, keep, sorder >>
 
 m1 == /\ pc["main"] = "m1"
-      /\ PrintT(<<"H", hist, kind, target, exc, (exc = "none" /\ kind = "load") => thy = Expected(target)>>)
-      /\ good' = (good /\ (kind = "load" => (exc = "none" /\ thy = Expected(target))))
-      /\ hist' = Append(hist, <<kind, target>>)
+      /\ LET okf == IF kind # "load" THEN TRUE
+                    ELSE IF ExpectOK(fexists, fimports, fitems, target, lim)
+                         THEN (IF SaneLib(fexists, fimports) THEN exc = "none" ELSE TRUE)
+                              /\ (exc = "none" => thy = ExpectedToks(fexists, fimports, fitems, target, lim))
+                         ELSE exc # "none" IN
+           /\ PrintT(<<"H", var, hist, <<kind, target, lim, arg>>, exc, okf>>)
+           /\ good' = (good /\ okf)
+      /\ hist' = Append(hist, <<kind, target, lim, arg>>)
       /\ faultAt' = "none"
-      /\ pc' = [pc EXCEPT !["main"] = "m2"]
-      /\ UNCHANGED << thy, cached, content, imported, exc, ops, stack, m, 
-                      pcidx, f, deps, i, saved, keep, g, deps2, j, target, 
-                      kind >>
-
-m2 == /\ pc["main"] = "m2"
       /\ ops' = ops + 1
       /\ pc' = [pc EXCEPT !["main"] = "m0"]
-      /\ UNCHANGED << thy, cached, content, imported, exc, faultAt, good, hist, 
-                      stack, m, pcidx, f, deps, i, saved, keep, g, deps2, j, 
-                      target, kind >>
+      /\ UNCHANGED << var, fexists, fimports, fitems, fver, meta, metaLoaded, 
+                      limMemo, order, thy, imported, exc, stack, m, pcidx, dn, 
+                      dk, dimps, names, q, f, deps, i, saved, keep, sorder, g, 
+                      glim, deps2, j, sorder2, target, kind, lim, arg >>
 
-main == m0 \/ m1 \/ m2
+main == m0 \/ m1
 
 (* Allow infinite stuttering to prevent deadlock on termination. *)
 Terminating == /\ \A self \in ProcSet: pc[self] = "Done"
                /\ UNCHANGED vars
 
 Next == main
-           \/ (\E self \in ProcSet:  \/ ImportModule(self) \/ LoadCache(self)
+           \/ (\E self \in ProcSet:  \/ ImportModule(self) \/ Dfs(self)
+                                     \/ GetOrder(self) \/ LoadCache(self)
                                      \/ LoadTheory(self))
            \/ Terminating
 
@@ -598,5 +1261,5 @@ Termination == <>(\A self \in ProcSet: pc[self] = "Done")
 
 \* END TRANSLATION
 
-Good == good
+Good == (var \in GoodVariants) => good
 =============================================================================
